@@ -31,7 +31,7 @@ Section Exact.
     assert (L0 : live s e0 = true) by (unfold live; rewrite Hdel0; auto).
     pose proof (greedy_down_live dist ord (vlevel (vget s e0)) s q e0 (vdist dist s q e0) (vlevel (vget s e0)) L0) as LG.
     destruct (greedy_down dist ord s q e0 (vdist dist s q e0) (vlevel (vget s e0)) (vlevel (vget s e0))) as [ep d0]. simpl in LG.
-    apply (search_level_good dist ord s q ep (Nat.max (c_ef c) k) 0 LG).
+    apply (search_level_good dist ord s q ep (beam_width c s k) 0 LG).
   Qed.
 
   (* with every live vertex in the beam, candidate extension adds nothing *)
